@@ -1739,7 +1739,7 @@ class Wallet(object):
         self.main_key_id = self.main_key.key_id
         self._key_objects.update({self.main_key_id: self.main_key})
         self.session.query(DbWallet).filter(DbWallet.id == self.wallet_id).\
-            update({DbWallet.main_key_id: self.main_key_id})
+            update({DbWallet.main_key_id: self.main_key_id, DbWallet.key_path: '/'.join(self.key_path)})
 
         for key in self.keys(is_private=False):
             kp = key.path.split("/")
